@@ -182,24 +182,29 @@ func wrapIfUncoded(err error) error {
 
 // wrapIfContextDone applies CodeCanceled or CodeDeadlineExceeded to errors met
 // while the context is done: transports report a cancellation in many shapes
-// (closed pipes, reset streams, closed connections), but the cause is the
-// context. It leaves already-coded errors unchanged.
+// (closed pipes, reset streams, closed connections, the context's cause), but
+// the reason is the context. The context decides the code: its cause may be
+// any error - coded already, or wrapping the other context error - and says
+// nothing about how the context ended.
 func wrapIfContextDone(ctx context.Context, err error) error {
 	if err == nil {
 		return nil
 	}
-	err = wrapIfContextError(err)
-	if _, ok := asError(err); ok {
+	ctxErr := ctx.Err()
+	if ctxErr == nil {
+		return wrapIfContextError(err)
+	}
+	code := CodeCanceled
+	if errors.Is(ctxErr, context.DeadlineExceeded) {
+		code = CodeDeadlineExceeded
+	}
+	if connectErr, ok := asError(err); ok && connectErr.Code() == code {
 		return err
 	}
-	ctxErr := ctx.Err()
-	if errors.Is(ctxErr, context.Canceled) {
-		return NewError(CodeCanceled, err)
-	}
-	if errors.Is(ctxErr, context.DeadlineExceeded) {
-		return NewError(CodeDeadlineExceeded, err)
-	}
-	return err
+	// Keep the failure's text but not its chain: the cause of a context can wrap
+	// anything - io.EOF included, which the readers above us would take for the
+	// end of the stream.
+	return NewError(code, fmt.Errorf("%w: %v", ctxErr, err))
 }
 
 // wrapIfContextError applies CodeCanceled or CodeDeadlineExceeded to Go's
